@@ -133,6 +133,9 @@ def gen_blur(rng, tie=False):
                         H[i][j] = dec(rng, -1.5, 1.5, 2)
             pos = [[fstr(Fraction(lo[k]) + Fraction(rng.randint(0, 1000), 1000) * Fraction(L[k])) for k in range(d)] for _ in range(N)]
             pos = [[fstr(round(Fraction(v), 3)) for v in row] for row in pos]
+            if rng.random() < 0.4:
+                # unfolded coordinates (an `xu` trajectory): some particles whole box lengths outside the box bounds
+                pos = [[fstr(Fraction(v) + (rng.randint(-3, 3) * Fraction(L[k]) if rng.random() < 0.5 else 0)) for k, v in enumerate(row)] for row in pos]
             frames.append({"lo": lo, "L": L, "H": H, "pos": pos})
         ppp = [rng.choice(["0", "1"]) for _ in range(d)]
         if rng.random() < 0.5:
@@ -274,8 +277,14 @@ def real_call(c):
     snaps = [_snap(c["t0"] + n * c["dts"], [[0.0, 0.0]] * c["N"], [1.0, 1.0], [[0, 1.0], [0, 1.0]], [[1.0, 0], [0, 1.0]]) for n in range(T)]
     x = np.array([[float(v) for v in row] for row in c["x"]], dtype=float)
     if c["complex"]:
-        x = x[:, 0::2] + 1j * x[:, 1::2]
+        x = x[:, 0::2] + 1j * x[:, 1::2]          # complex128, the dtype the routine computes in
+    x0 = x.copy()
+    if c.get("again", True):
+        # call history: the same array object has already been averaged once in this process (with another window)
+        cg.time_average(Snapshots(T, snaps), x, time_period=float(c["period"]) * 0.5 + float(c["dt"]) * c["dts"], dt=float(c["dt"]))
     res, mid = cg.time_average(Snapshots(T, snaps), x, time_period=float(c["period"]), dt=float(c["dt"]))
+    if not np.array_equal(x, x0):
+        raise AssertionError("input_property was modified in place")
     return {"res": np.asarray(res), "mid": np.asarray(mid)}
 
 
